@@ -422,6 +422,15 @@ fn battery(ctx: &mut Ctx, st: &mut St, req: &Request, p: &Proof, r: &mut Rng, pr
                 return Err(fail("honest-after-battery:state-differs", format!("{} vs twin {}", ops::short_obs(&o), ops::short_obs(&obs_t))));
             }
             ctx.count("honest_after_battery_ok");
+            // and what was accepted after all those refusals is still there after a close/reopen
+            // (a refusal must not leave the instance and its storage out of step)
+            let f = crate::world::snapshot(&a.world);
+            let mut ro = clone_by_reopen(&f, &a.model, a.cache)?;
+            let o2 = obs_of(&mut ro);
+            if o2 != o {
+                return Err(fail("honest-after-battery:lost-at-reopen", format!("after the refused proofs the honest proof was accepted ({}) but a reopen shows {}", ops::short_obs(&o), ops::short_obs(&o2))));
+            }
+            ctx.count("honest_after_battery_survives_reopen");
         }
         other => return Err(fail(format!("honest-after-battery:{}", outcome_name(&other)), "after a series of refused proofs the honest proof was not accepted".to_string())),
     }
